@@ -43,6 +43,12 @@ def cases(tier, seed):
     for p in GM.gen_fcn(1 if tier == 'quick' else 2):
         for a, w in (((2, 4, 8), (2, 4, 8)), ((8, 4), (4, 2, 8))):
             out.append({'prog': p, 'a': list(a), 'w': list(w), 'tier': tier})
+    # the same grammar built from Conv1d / BatchNorm1d / 1D pooling (MPSConv1d / QuantConv1d are separate implementations)
+    for p in GM.gen(2) + GM.gen_fcn(1):
+        for a, w in (((2, 4, 8), (2, 4, 8)), ((8, 4), (4, 2, 8))):
+            if tier == 'quick' and (a, w) != ((2, 4, 8), (2, 4, 8)) and len(p['stages']) > 1:
+                continue
+            out.append({'prog': dict(p, dim=1, size=8), 'a': list(a), 'w': list(w), 'tier': tier})
     # a layer invoked at two call sites (weight sharing), same / different resolution
     for p in GM.gen_twice():
         for a, w in (((2, 4, 8), (2, 4, 8)), ((8, 4), (4, 2, 8))):
@@ -265,4 +271,4 @@ def _key(prog, a, w, label):
 
 def _shape_sig(prog):
     ops = '+'.join(sorted({s['op'] + ('-dw' if s.get('dw') else '') + ('-bn' if s.get('bn') else '') for s in prog['stages']}))
-    return f"{ops}/{prog['head']}" + (f"/two-in-{prog['two_in']}" if prog.get('two_in') else '')
+    return f"{ops}/{prog['head']}" + (f"/two-in-{prog['two_in']}" if prog.get('two_in') else '') + ('/1d' if prog.get('dim') == 1 else '')
